@@ -23,6 +23,9 @@ namespace sbepp
 
 namespace gd
 {
+// set when a header filler returned a view that is not the header it filled
+static bool bad_header_view = false;
+
 struct span
 {
     char* p;
@@ -284,6 +287,7 @@ inline int main_loop(const std::map<std::string, entry>& table)
             guard_buf gb{pre.size()};
             std::memcpy(gb.p, pre.data(), pre.size());
             std::size_t ret = 0;
+            bad_header_view = false;
             const auto st = proto::guarded(
                 [&]
                 {
@@ -291,7 +295,7 @@ inline int main_loop(const std::map<std::string, entry>& table)
                                           : it->second.enc_ra(span{gb.p, gb.n}, tq);
                 });
             std::cout << "buf=" << proto::hex(reinterpret_cast<unsigned char*>(gb.p), gb.n) << " ret=" << ret
-                      << " st=" << (st.empty() ? "ok" : st) << "\n";
+                      << " st=" << (st.empty() ? (bad_header_view ? "BADHDRVIEW" : "ok") : st) << "\n";
         }
         else
         {
